@@ -45,6 +45,14 @@ PROPS = {
                 technique='contract-based verification: Hoare triples on the real To*Value::try_to_value impls, discharged by Kani/CBMC over full input domains (Vec<Duration> lists bounded)',
                 explanation='Kani contracts on the 22 real conversion impls in cadence/src/client.rs: scalar integers and floats over the whole type range (loop-free => complete), packed u64/f64 lists by buffer identity for every (len, capacity), Duration->ms/ns over all (secs, nanos) against 128-bit reference arithmetic (complete). Vec<Duration> impls are BOUNDED (list length 1..2 quick, 1..3 thorough) and listed under bounded_checks. The decimal rendering of the numbers (std Display) is trusted, not verified; rendering order of packed lists is the Verus obligation of C01 (write_value).',
                 assumptions=KANI_ASSUME + ['std integer/float Display produce the canonical numeral that parses back to the identical value (std contract, not verified)']),
+    'C13': dict(level='other', engine='verus+kani', units=lambda tier: [kani(['core_stats', 'io_helpers', 'udp_sinks', 'unix_sinks']), verus(IO, ['frame', 'spec', 'model'])],
+                technique='contract-based verification: Kani Hoare triples on the real UDP/Unix sinks and adapters with send_to replaced by a recording contract stub; Verus proof of the line writer constructors',
+                explanation='Kani triples on the real UdpMetricSink/UnixMetricSink::emit, Udp/UnixWriteAdapter::write+flush and the four buffered constructors (send_to replaced by a recording stub with an arbitrary Ok(n)/Err(kind) answer): exactly one send_to per call, payload pointer- and length-identical to the metric, destination equal to the configured address/path, result passed through unchanged. Metric length is symbolic 0..=64 (the code never reads the bytes) => listed as bounded. The datagram form of the buffered sinks is C05 (Verus); here the constructors are shown to configure capacity (512 default) and a single newline.',
+                assumptions=KANI_ASSUME + STD_ASSUME + ['the kernel delivers what send_to was given (outside any contract)', 'Path::canonicalize and other file-system queries answer arbitrarily (stub)']),
+    'C14': dict(level='other', engine='kani', units=lambda tier: [kani(['core_stats', 'io_helpers', 'udp_sinks', 'unix_sinks'])],
+                technique='contract-based verification: Kani function contracts (Hoare triples) on SocketStats::update and on every send_to call site',
+                explanation='SocketStats::update is verified over its full domain (any prior counters below 2^63, any Ok(w)/Err(kind), any len): complete, loop-free. Every send_to in udp.rs/unix.rs is shown to be wrapped by update with the buffer length (sink triples, buffer length symbolic 0..=64 => bounded list), and the adapter shares the sink counters (Arc identity). The lift to "at any quiescent moment, under concurrent emitters" is the commutativity of atomic fetch_add, which is assumed (atomicity of RMW), not explored.',
+                assumptions=KANI_ASSUME + ['atomic fetch_add is atomic; additions commute, so totals are schedule-independent (not machine-checked)', 'counters stay below 2^64 (they wrap silently by definition)']),
     'C19': dict(level='proof', units=lambda tier: [verus(IO, ['greedy', 'spec', 'model'])],
                 explanation='Unbounded deductive proof (Verus) of the socket-activity postconditions (attempt counter of the socket model) under the exact-accounting invariant.',
                 assumptions=STD_ASSUME + [BUFWRITER]),
